@@ -410,7 +410,10 @@ static void run_cell(seqx::Runner &R, int start, int comp, int depth) {
     if (g_guard_live != 0) R.fail("async/raii-balance", "%ld argument/local guards still alive (constructed %ld)", g_guard_live, g_guard_ctor);
     if (g_val_live != 0) R.fail("async/value-lifetime", "%ld result values still alive", g_val_live);
     if (!R.case_fail && seqx::live_allocs() != base) R.fail("async/frame-balance", "%ld allocations not released (frame leaked?)", (long)(seqx::live_allocs() - base));
-    if (cocls::coro_queue::is_active()) R.fail("async/queue-left-active", "coro_queue active after return to normal code");
+    if (cocls::coro_queue::is_active()) {
+        R.fail("async/queue-left-active", "coro_queue active after return to normal code");
+        seq_reset_thread_state();
+    }
     R.state(seqx::hash_str(d.str()));
     R.end(true);
 }
